@@ -11,6 +11,7 @@ import (
 	"encoding/binary"
 	"fmt"
 	"math"
+	"math/rand"
 	"os"
 	"path/filepath"
 	"strings"
@@ -40,6 +41,8 @@ type scen struct {
 	Policy  string `json:"scheduling_policy,omitempty"` // set in replay files of violations found under a fixed policy
 	Bound   int    `json:"bound"`
 	Prefix  []int  `json:"schedule_prefix,omitempty"`
+	// PoliciesOnly: run under the default schedule and the three fixed policies, without exploration
+	PoliciesOnly bool `json:"fixed_policies_only,omitempty"`
 }
 
 type latCfg struct {
@@ -120,6 +123,8 @@ func seqRef(l *lattice.Lat3, f *lattice.Field3) []*sdf.Triangle3 {
 // geoKey identifies a triangle sequence up to 1e-6 (the renderer accumulates cell coordinates, the
 // independent reference takes them from the lattice); schedule independence itself is compared bit
 // for bit (exactKey).
+func key3s(ts []*sdf.Triangle3) string { return geoKey(ts) + "/" + exactKey(ts) }
+
 func geoKey(ts []*sdf.Triangle3) string {
 	h := sha256.New()
 	for _, t := range ts {
@@ -317,6 +322,66 @@ func prepare(sc scen, j *vlib.Job) *prepared {
 				out = append(out, key3(render.ToTriangles(fa, mk())))
 				out = append(out, key3(render.ToTriangles(fb, mk())))
 				out = append(out, key3(render.ToTriangles(fa, mk())))
+			}
+		}
+	case "real-shapes":
+		// real library shapes (not lookup fields) evaluated by the uniform renderer's workers: scratch space or
+		// lazily built tables inside a shape show as data races on the instrumented fields, or as a mesh that
+		// depends on the schedule.  The shape is built afresh in every execution (a first use that is concurrent).
+		mkShape := func() sdf.SDF3 {
+			a := sdf.Transform2D(sdf.Box2D(v2.Vec{X: 1, Y: 3}, 0), sdf.Translate2d(v2.Vec{X: 4.2, Y: 3}))
+			b := sdf.Transform2D(circle{0.6}, sdf.Translate2d(v2.Vec{X: 6.1, Y: 3.4}))
+			d := sdf.Transform2D(sdf.Box2D(v2.Vec{X: 0.5, Y: 0.5}, 0.1), sdf.Translate2d(v2.Vec{X: 5.2, Y: 4.6}))
+			u := sdf.Union2D(a, sdf.Union2D(b, d))
+			ex := sdf.Extrude3D(u, 1)
+			rc := sdf.RotateCopy3D(sdf.Transform3D(sdf.Extrude3D(sdf.Union2D(b, d), 1), sdf.Translate3d(v3.Vec{X: -4, Y: -2})), 3)
+			return sdf.Union3D(ex, sdf.Transform3D(rc, sdf.Translate3d(v3.Vec{X: 5, Y: 3, Z: 1.2})))
+		}
+		// 14 cells: layers of 15 x 15 lattice points, i.e. three evaluation batches in flight at once
+		mk := func() render.Render3 { return render.NewMarchingCubesUniform(14) }
+		p.body = func() {
+			out = nil
+			vsync.SetNumCPU(sc.Workers)
+			out = append(out, key3s(render.ToTriangles(mkShape(), mk())))
+		}
+	case "bezier-twice":
+		// two runs of a program that builds and renders a curve: the library's private random source (seeded with a
+		// constant) is put back to its initial state before each build, as at the start of a process; a sampler
+		// that draws from anything else (the process-random global source, the clock) gives two different files
+		mkShape := func() sdf.SDF2 {
+			bz := sdf.NewBezier()
+			bz.Add(0, 0)
+			bz.Add(1, 2).Mid()
+			bz.Add(2, -2).Mid()
+			bz.Add(3, 0)
+			bz.Add(4, 3).Mid()
+			bz.Add(5, -3).Mid()
+			bz.Add(6, 0)
+			bz.Add(6, -4)
+			bz.Add(0, -4)
+			bz.Close()
+			pl, err := bz.Polygon()
+			if err != nil {
+				return circle{1}
+			}
+			s2, err := sdf.Polygon2D(pl.Vertices())
+			if err != nil {
+				return circle{1}
+			}
+			return s2
+		}
+		p.body = func() {
+			out = nil
+			for k := 0; k < 2; k++ {
+				vos.Reset(nil)
+				sdf.VerifSetRand(rand.NewSource(1))
+				render.ToSVG(mkShape(), "b.svg", render.NewMarchingSquaresUniform(24))
+				out = append(out, fmt.Sprintf("%x", sha256.Sum256(vos.Files["b.svg"].B)))
+			}
+			if out[0] != out[1] {
+				out[1] = "second run renders the same curve differently: " + out[1]
+			} else {
+				out = out[:1]
 			}
 		}
 	case "octree":
@@ -699,7 +764,8 @@ func main() {
 		scen{Kind: "stl-two", Workers: 1, Bound: -1}, scen{Kind: "stl-path-history", Workers: 1, Bound: -1}, scen{Kind: "svg-path-history", Workers: 1, Bound: -1},
 		scen{Kind: "dxf-two", Workers: 1, Bound: -1}, scen{Kind: "dxf-history", Workers: 1, Bound: -1}, scen{Kind: "3mf-two", Workers: 1, Bound: -1},
 		scen{Kind: "dxf-todxf-savedxf", Workers: 1, Bound: -1}, scen{Kind: "dxf-todxf-poly", Workers: 1, Bound: -1}, scen{Kind: "svg-long", Workers: 1, Bound: -1},
-		scen{Kind: "one-buffer-two-renders-3d", Workers: 1, Bound: -1}, scen{Kind: "one-buffer-two-renders-2d", Workers: 1, Bound: -1})
+		scen{Kind: "one-buffer-two-renders-3d", Workers: 1, Bound: -1}, scen{Kind: "one-buffer-two-renders-2d", Workers: 1, Bound: -1},
+		scen{Kind: "real-shapes", Workers: 2, Bound: 0, PoliciesOnly: true}, scen{Kind: "real-shapes", Workers: 3, Bound: 0, PoliciesOnly: true}, scen{Kind: "bezier-twice", Workers: 1, Bound: 0, PoliciesOnly: true})
 	if c.Thorough() {
 		scens = append(scens, scen{Kind: "triangles", Lattice: "1x14x13 n=14 (layer 225: 3 batches)", Workers: 3, Every: 100, Bound: 2},
 			scen{Kind: "two", Lattice: T, Workers: 2, Every: 0, Bound: 2}, scen{Kind: "two", Lattice: L25, Workers: 1, Every: 0, Bound: 1}, scen{Kind: "stl", Lattice: L100, Workers: 3, Every: 37, Bound: 2})
@@ -762,6 +828,12 @@ func main() {
 		if policyViolation {
 			// already decided for this scenario; the exploration below would only repeat it
 			j.Count("scenarios-decided-by-a-fixed-policy", 1)
+			return
+		}
+		if sc.PoliciesOnly {
+			// long executions (hundreds of evaluations of a real shape): the default schedule and the three policies
+			// are run, races are decided by the happens-before detector on each of them; no exploration
+			j.Count("scenarios-run-under-the-fixed-policies-only", 1)
 			return
 		}
 		st := vsync.ExploreAll(vsync.Options{Bound: sc.Bound, Stop: c.Expired, Shard: u.shard, NShards: shards, MaxExec: 300000, Prune: true, ShallowFirst: true, SymmetricSpawn: []string{"render.evalRoutines"}}, p.body, func(x *vsync.Execution, prefix []int) bool {
